@@ -251,6 +251,8 @@ def build(plan, kind, rng, xclass):
         x = np.zeros(N)
     elif xclass == 'large':
         x = x * 8
+        x[0] = x[0] + 64        # far outside every ball / threshold, whatever was drawn: the
+        #                         `step < 1` / `outside the l1 ball` branches are reached on purpose
     elif xclass == 'small':
         x = x / 16
     gvals = grid(rng, N)
